@@ -448,6 +448,28 @@ def c16(run):
     run.extra["driver"] = info
 
 
+@check("C10")
+def c10(run):
+    run.rule = ("cases = str_replace_re and str_replace_re_all (SMT-LIB-named wrappers, fresh and long-lived "
+                "thread-local managers) for every pattern of depth <= 1 over {none,eps,a,b,[a-b],allchar,all}, a "
+                "stratified sample of depth 2 and seeded random patterns, on every subject of length <= 3 and a "
+                "sample of length 4 (5 thorough) over {a,b}, replacements {eps, X, ab}; oracle: leftmost-then-shortest "
+                "search over the residual automaton (checked against the SMT-LIB clause on Matches by MC_Regex); "
+                "non-trivial = distinct pattern record of depth >= 1")
+    run.assumptions = list(REGEX_ASSUME)
+    _u1_regex(run)
+    out, info = _drive(run, "c10")
+    need = {"nullable_pattern": lambda r: r.get("nullable") is True, "non_nullable": lambda r: r.get("nullable") is False,
+            "complement": lambda r: r.get("ast", {}).get("k") == "not",
+            "changed": lambda r: any(c["r"] != c["s"] for c in r.get("calls", [])),
+            "unchanged": lambda r: any(c["r"] == c["s"] for c in r.get("calls", []))}
+    run.validate("c10_replace", os.path.join(out, "c10_replace.ndjson"), "Trace_Regex", "Trace_Regex.cfg",
+                 ["C10:", "wrappers", "str_replace_re"], workers=workers(run), nontrivial=_depth_ge1, need=need, timeout=1500)
+    run.extra["driver"] = info
+    run.extra["calls_validated"] = sum(len(r.get("calls", [])) for r in core.read_ndjson(os.path.join(out, "c10_replace.ndjson"))) \
+        if os.path.exists(os.path.join(out, "c10_replace.ndjson")) else 0
+
+
 # ------------------------------------------------------------------------------------ housekeeping
 
 def sany():
